@@ -156,15 +156,15 @@ func (s *SwitchPool) GetByID(ctx context.Context, client client.VPC, id string) 
 				IPv4CIDR:         resp.CidrBlock,
 				IPv6CIDR:         resp.Ipv6CidrBlock,
 			}
+			// store it once, here: a waiter of this flight that stored it again later would overwrite a Block made meanwhile
+			s.cache.Add(sw.ID, sw, s.ttl)
 			return sw, nil
 		})
 		if err != nil {
 			return nil, err
 		}
-		vsw := v.(*Switch)
-		s.cache.Add(vsw.ID, vsw, s.ttl)
 
-		return vsw, nil
+		return v.(*Switch), nil
 	}
 	sw := v.(*Switch)
 	return sw, nil
